@@ -10,8 +10,8 @@ from ..core import failure
 
 PROPERTY = "C14"
 LEVEL = "exploration"
-EXHAUSTIVE = ("all 196 ordered rooted forests with <= 6 Sections under a Document x 6 rotations of a "
-              "prefix-related name alphabet {a, ab, abc, abcd, b, a-b}; per tree every node, every ordered "
+EXHAUSTIVE = ("all 196 ordered rooted forests with <= 6 Sections under a Document x 7 rotations of a "
+              "prefix-related and case-related name alphabet {a, ab, abc, A, b, a-b, Ab}; per tree every node, every ordered "
               "pair of Sections (incl. a = b and ancestor/descendant), every start node x max_depth in "
               "{None, 0..depth+1} x yield_self x filter, and a fixed grid of find / find_related queries")
 RULE = ("exhaustive: itertools enumeration of the small-tree space (complete within the stated bounds); "
@@ -27,7 +27,7 @@ ASSUMPTIONS = ["names are free of '/' and ':' and differ from '.' and '..'",
                "everything including the Document and is not specified)",
                "find_related(findAll=True) is compared as a set"]
 
-ALPHABET = ["a", "ab", "abc", "abcd", "b", "a-b"]
+ALPHABET = ["a", "ab", "abc", "A", "b", "a-b", "Ab"]
 TYPES = ["t", "T", "a/b", "a/b/c", "b", "A/B"]
 
 
@@ -67,10 +67,12 @@ def build_tree(forest, rot):
             sec = odml.Section(name=name, type=typ)
             parent.append(sec)
             nodes.append(sec)
-            # one Property named like a sibling Section, one other
-            sib = ALPHABET[(i + 1 + rot + depth) % len(ALPHABET)]
-            sec.append(odml.Property(name=sib, values=[len(nodes)]))
-            sec.append(odml.Property(name="p", values=["v%d" % len(nodes), "w"]))
+            # one Property named like a sibling Section, one other; every third Section stays
+            # without Properties (an empty leaf Section is falsy) and every second 'p' has no values
+            if len(nodes) % 3 != 2:
+                sib = ALPHABET[(i + 1 + rot + depth) % len(ALPHABET)]
+                sec.append(odml.Property(name=sib, values=[len(nodes)]))
+                sec.append(odml.Property(name="p", values=["v%d" % len(nodes), "w"] if len(nodes) % 2 else []))
             add(sec, sub, depth + 1)
     add(doc, forest, 0)
     return doc, nodes
@@ -271,7 +273,7 @@ def check_traversals(doc, nodes, fails, ctx_nt, tree_tag):
     return n
 
 
-KEYS = [None, "a", "ab", "b"]
+KEYS = [None, "a", "ab", "b", "A"]
 QTYPES = [None, "t", "A/B", "a", "b"]
 
 
